@@ -26,6 +26,7 @@ from socket import error as socket_error
 from errno import ECONNRESET, EPIPE
 from io import BytesIO
 
+from gevent import Timeout
 from gevent.ssl import SSLSocket, SSLError, create_default_context
 
 from slimta import logging
@@ -60,6 +61,11 @@ class IO(object):
         self.send_buffer = BytesIO()
         self.recv_buffer = b''
 
+        #: Seconds a write to the socket may block (the peer has stopped
+        #: reading) before :class:`gevent.Timeout` is raised, ``None`` for no
+        #: limit.
+        self.send_timeout = None
+
     @property
     def address(self):
         if not self._address:
@@ -88,7 +94,8 @@ class IO(object):
 
     def raw_send(self, data):
         try:
-            self.socket.sendall(data)
+            with Timeout(self.send_timeout):
+                self.socket.sendall(data)
         except socket_error as e:
             if e.errno == ECONNRESET:
                 raise ConnectionLost()
